@@ -292,3 +292,290 @@ theorem good_armE (ends back forth : List Seg) (n : Int) :
   rw [evalOp_imp]
 
 end Arm
+
+/-! ### closed form of the posted program -/
+
+theorem passed_get' (H W y x : Nat) (hy : y ≤ H) (hx : x ≤ W) :
+    (Arr2.mk (H + 1) (W + 1) (bvars (Frame.numVars H W) ((H + 1) * (W + 1)))).get (y : Int) (x : Int)
+      = .ok (.bvar (Frame.numVars H W + ptIndex W (y, x))) := by
+  apply C14.Arr2.get_nat _ y x _ (by simp only []; omega) (by simp only []; omega)
+  simp only []
+  rw [C14.bvars_getElem? _ _ _ (C14.mul_add_lt (by omega) (by omega))]
+  rfl
+
+section Cell
+variable (pb : Problem)
+
+local notation "HH" => pb.height - 1
+local notation "WW" => pb.width - 1
+
+/-- the (up to two) horizontal / vertical steps ending in `p`. -/
+def endsH (p : Pt) : List Seg :=
+  (if 0 < p.2 then [Seg.h p.1 (p.2 - 1)] else []) ++ (if p.2 < WW then [Seg.h p.1 p.2] else [])
+def endsV (p : Pt) : List Seg :=
+  (if 0 < p.1 then [Seg.v (p.1 - 1) p.2] else []) ++ (if p.1 < HH then [Seg.v p.1 p.2] else [])
+
+def passedVar (p : Pt) : Expr := .bvar (Frame.numVars HH WW + ptIndex WW p)
+
+/-- What the double loop posts for one cell. -/
+def cellE (p : Nat × Nat) : List Expr :=
+  if val pb p.1 p.2 ≥ 1 then
+    [passedVar pb p,
+     armE HH WW (endsH pb p) (segsFrom HH WW p .left) (segsFrom HH WW p .right) (val pb p.1 p.2),
+     armE HH WW (endsV pb p) (segsFrom HH WW p .up) (segsFrom HH WW p .down) (val pb p.1 p.2)]
+  else []
+
+def extra : List Expr := ((cellsOf pb.height pb.width).map (cellE pb)).flatten
+
+theorem tableGet_eq (hw : WellFormed pb) {y x : Nat} (hy : y < pb.height) (hx : x < pb.width) :
+    tableGet pb.problem (y : Int) (x : Int) = .ok (val pb y x) := by
+  obtain ⟨_, _, hlen, hrows⟩ := hw
+  unfold tableGet val
+  have hy' : y < pb.problem.length := by rw [hlen]; exact hy
+  have hrow : pb.problem[y]? = some pb.problem[y] := List.getElem?_eq_getElem hy'
+  have hl : pb.problem[y].length = pb.width := hrows _ (List.getElem_mem hy')
+  have hx' : x < pb.problem[y].length := by rw [hl]; exact hx
+  rw [C14.pyIndex_nat _ _ _ hrow, ok_bind, C14.pyIndex_nat _ _ _ (List.getElem?_eq_getElem hx')]
+  simp [List.getD, hrow, List.getElem?_eq_getElem hx']
+
+theorem cellCs_eq (hw : WellFormed pb) {p : Nat × Nat} (hp : p ∈ cellsOf pb.height pb.width) :
+    cellCs pb (Frame.fresh 0 HH WW)
+      (Arr2.mk (HH + 1) (WW + 1) (bvars (Frame.numVars HH WW) ((HH + 1) * (WW + 1)))) p = .ok (cellE pb p) := by
+  obtain ⟨hy, hx⟩ := mem_cellsOf.mp hp
+  obtain ⟨y, x⟩ := p
+  simp only [] at hy hx
+  have h1 := hw.1
+  have h2 := hw.2.1
+  unfold cellCs cellE
+  simp only []
+  rw [tableGet_eq pb hw hy hx, ok_bind]
+  by_cases hv : val pb y x ≥ 1
+  · simp only [hv, if_true]
+    rw [passed_get' HH WW y x (by omega) (by omega), ok_bind]
+    have hens : ensure1 (Expr.bvar (Frame.numVars HH WW + ptIndex WW (y, x))) = .ok (passedVar pb (y, x)) := rfl
+    rw [hens, ok_bind]
+    -- the end segments
+    have he1 : optItem (decide ((x : Int) > 0)) ((Frame.fresh 0 HH WW).horizontal.get (y : Int) ((x : Int) - 1))
+        = .ok ((if 0 < x then [Seg.h y (x - 1)] else []).map (segExpr 0 HH WW)) := by
+      by_cases h : 0 < x
+      · unfold optItem
+        rw [if_pos (by simpa using (by omega : (x : Int) > 0)), if_pos h, show ((x : Int) - 1) = ((x - 1 : Nat) : Int) by omega,
+          C14.fresh_h 0 HH WW y (x - 1) (by omega) (by omega)]
+        rfl
+      · unfold optItem
+        rw [if_neg (by simp; omega), if_neg h]; rfl
+    have he2 : optItem (decide ((x : Int) < (pb.width : Int) - 1)) ((Frame.fresh 0 HH WW).horizontal.get (y : Int) (x : Int))
+        = .ok ((if x < WW then [Seg.h y x] else []).map (segExpr 0 HH WW)) := by
+      by_cases h : x < pb.width - 1
+      · unfold optItem
+        rw [if_pos (by simpa using (by omega : (x : Int) < (pb.width : Int) - 1)), if_pos h, C14.fresh_h 0 HH WW y x (by omega) h]
+        rfl
+      · unfold optItem
+        rw [if_neg (by simp; omega), if_neg h]; rfl
+    have he3 : optItem (decide ((y : Int) > 0)) ((Frame.fresh 0 HH WW).vertical.get ((y : Int) - 1) (x : Int))
+        = .ok ((if 0 < y then [Seg.v (y - 1) x] else []).map (segExpr 0 HH WW)) := by
+      by_cases h : 0 < y
+      · unfold optItem
+        rw [if_pos (by simpa using (by omega : (y : Int) > 0)), if_pos h, show ((y : Int) - 1) = ((y - 1 : Nat) : Int) by omega,
+          C14.fresh_v 0 HH WW (y - 1) x (by omega) (by omega)]
+        rfl
+      · unfold optItem
+        rw [if_neg (by simp; omega), if_neg h]; rfl
+    have he4 : optItem (decide ((y : Int) < (pb.height : Int) - 1)) ((Frame.fresh 0 HH WW).vertical.get (y : Int) (x : Int))
+        = .ok ((if y < HH then [Seg.v y x] else []).map (segExpr 0 HH WW)) := by
+      by_cases h : y < pb.height - 1
+      · unfold optItem
+        rw [if_pos (by simpa using (by omega : (y : Int) < (pb.height : Int) - 1)), if_pos h, C14.fresh_v 0 HH WW y x h (by omega)]
+        rfl
+      · unfold optItem
+        rw [if_neg (by simp; omega), if_neg h]; rfl
+    rw [he1, ok_bind, he2, ok_bind, back_eq HH WW y x (by omega) (by omega), ok_bind,
+      forth_eq HH WW y x (by omega) (by omega), ok_bind]
+    have hbb : (List.map (fun c => segExpr 0 HH WW (Seg.h y c)) (List.range x)).reverse
+        = (segsFrom HH WW (y, x) .left).map (segExpr 0 HH WW) := by
+      simp [segsFrom, List.map_reverse, List.map_map, Function.comp_def]
+    have hff : (List.map (fun j => segExpr 0 HH WW (Seg.h y (x + j))) (List.range (WW - x)))
+        = (segsFrom HH WW (y, x) .right).map (segExpr 0 HH WW) := by
+      simp [segsFrom, List.map_map, Function.comp_def]
+    rw [← List.map_append, hbb, hff]
+    rw [armCs_eq HH WW _ _ _ (val pb y x), ok_bind]
+    rw [he3, ok_bind, he4, ok_bind, up_eq HH WW y x (by omega) (by omega), ok_bind,
+      down_eq HH WW y x (by omega) (by omega), ok_bind]
+    have huu : (List.map (fun r => segExpr 0 HH WW (Seg.v r x)) (List.range y)).reverse
+        = (segsFrom HH WW (y, x) .up).map (segExpr 0 HH WW) := by
+      simp [segsFrom, List.map_reverse, List.map_map, Function.comp_def]
+    have hdd : (List.map (fun j => segExpr 0 HH WW (Seg.v (y + j) x)) (List.range (HH - y)))
+        = (segsFrom HH WW (y, x) .down).map (segExpr 0 HH WW) := by
+      simp [segsFrom, List.map_map, Function.comp_def]
+    rw [← List.map_append, huu, hdd]
+    rw [armCs_eq HH WW _ _ _ (val pb y x), ok_bind]
+    rfl
+  · simp only [hv, if_false]
+
+end Cell
+
+section Main
+variable (pb : Problem)
+
+local notation "HH" => pb.height - 1
+local notation "WW" => pb.width - 1
+
+/-- Closed form of the posted program. -/
+theorem program_eq (hw : WellFormed pb) :
+    program pb = .ok
+      { decls := List.replicate (Frame.numVars HH WW) .bool ++ (cyc HH WW).decls,
+        cs := (cyc HH WW).cs ++ extra pb,
+        keys := List.range (Frame.numVars HH WW) } := by
+  have hw' := hw
+  obtain ⟨h1, h2, _, _⟩ := hw
+  unfold program
+  rw [if_neg (by omega)]
+  simp only [frameKeys_eq, setup_eq, bind, Except.bind]
+  rw [mapM_eq_ok_map (g := cellE pb) (fun p hp => cellCs_eq pb hw' hp)]
+  rfl
+
+theorem endsH_any (on : Seg → Bool) (p : Pt) :
+    (endsH pb p).any (fun s => on s) = (arm HH WW on p .left || arm HH WW on p .right) := by
+  unfold endsH arm
+  by_cases h1 : 0 < p.2 <;> by_cases h2 : p.2 < pb.width - 1 <;> simp [h1, h2]
+
+theorem endsV_any (on : Seg → Bool) (p : Pt) :
+    (endsV pb p).any (fun s => on s) = (arm HH WW on p .up || arm HH WW on p .down) := by
+  unfold endsV arm
+  by_cases h1 : 0 < p.1 <;> by_cases h2 : p.1 < pb.height - 1 <;> simp [h1, h2]
+
+/-- Rules 2 and 3 as a predicate on the drawn steps. -/
+def G (on : Seg → Bool) : Prop :=
+  ∀ y, y < pb.height → ∀ x, x < pb.width → 1 ≤ val pb y x → Numbered HH WW on (y, x) (val pb y x)
+
+theorem imp_eq_iff (a : Bool) (m n : Int) : ((!a || (m == n)) = true) ↔ (a = true → m = n) := by
+  cases a <;> simp
+
+theorem cell_iff (σ : Asg) (p : Pt)
+    (hpass : σ.b (Frame.numVars HH WW + ptIndex WW p) = onLoop HH WW (onOf HH WW σ) p) (n : Int) :
+    (eval σ (passedVar pb p) = some (.b true) ∧
+      eval σ (armE HH WW (endsH pb p) (segsFrom HH WW p .left) (segsFrom HH WW p .right) n) = some (.b true) ∧
+      eval σ (armE HH WW (endsV pb p) (segsFrom HH WW p .up) (segsFrom HH WW p .down) n) = some (.b true))
+    ↔ Numbered HH WW (onOf HH WW σ) p n := by
+  unfold Numbered runLen
+  rw [(good_armE HH WW _ _ _ n).2.2 σ, (good_armE HH WW _ _ _ n).2.2 σ]
+  beta_reduce
+  rw [endsH_any, endsV_any]
+  unfold passedVar
+  rw [eval_bvar, hpass]
+  simp only [Option.some.injEq, Val.b.injEq, imp_eq_iff, Int.natCast_add]
+
+theorem extra_iff (hw : WellFormed pb) (σ : Asg)
+    (hpass : ∀ p, PtValid HH WW p → σ.b (Frame.numVars HH WW + ptIndex WW p) = onLoop HH WW (onOf HH WW σ) p) :
+    (∀ c ∈ extra pb, eval σ c = some (.b true)) ↔ G pb (onOf HH WW σ) := by
+  obtain ⟨h1, h2, _, _⟩ := hw
+  have hvalid : ∀ y x, y < pb.height → x < pb.width → PtValid HH WW (y, x) := by
+    intro y x hy hx; exact ⟨by simp only []; omega, by simp only []; omega⟩
+  unfold extra G
+  constructor
+  · intro h y hy x hx hv
+    apply (cell_iff pb σ (y, x) (hpass _ (hvalid y x hy hx)) _).mp
+    have hmem : ∀ c ∈ cellE pb (y, x), eval σ c = some (.b true) := by
+      intro c hc
+      apply h
+      rw [List.mem_flatten]
+      exact ⟨cellE pb (y, x), List.mem_map.mpr ⟨(y, x), mem_cellsOf.mpr ⟨hy, hx⟩, rfl⟩, hc⟩
+    have hv' : val pb y x ≥ 1 := hv
+    simp only [cellE, hv', if_true, List.mem_cons, List.not_mem_nil, or_false, forall_eq_or_imp, forall_eq] at hmem
+    exact hmem
+  · intro h c hc
+    rw [List.mem_flatten] at hc
+    obtain ⟨l, hl', hcl⟩ := hc
+    obtain ⟨p, hp, rfl⟩ := List.mem_map.mp hl'
+    obtain ⟨hy, hx⟩ := mem_cellsOf.mp hp
+    unfold cellE at hcl
+    split at hcl
+    · next hv =>
+      have := (cell_iff pb σ p (hpass _ (hvalid _ _ hy hx)) _).mpr (h p.1 hy p.2 hx hv)
+      simp only [List.mem_cons, List.not_mem_nil, or_false] at hcl
+      rcases hcl with rfl | rfl | rfl
+      · exact this.1
+      · exact this.2.1
+      · exact this.2.2
+    · simp at hcl
+
+theorem segsFrom_valid (H W : Nat) (p : Pt) (hp : PtValid H W p) (d : Dir) :
+    ∀ s ∈ segsFrom H W p d, s.Valid H W := by
+  obtain ⟨y, x⟩ := p
+  simp only [PtValid] at hp
+  intro s hs
+  cases d <;> simp only [segsFrom, List.mem_map, List.mem_reverse, List.mem_range] at hs <;>
+    obtain ⟨c, hc, rfl⟩ := hs <;> simp only [Seg.Valid] <;> omega
+
+theorem takeWhile_congr {α : Type} (l : List α) (p q : α → Bool) (h : ∀ a ∈ l, p a = q a) :
+    l.takeWhile p = l.takeWhile q := by
+  induction l with
+  | nil => rfl
+  | cons a l ih =>
+    rw [List.takeWhile_cons, List.takeWhile_cons, h a List.mem_cons_self,
+      ih (fun b hb => h b (List.mem_cons_of_mem _ hb))]
+
+theorem runLen_congr (H W : Nat) (on on' : Seg → Bool) (h : ∀ s, s.Valid H W → on s = on' s)
+    (p : Pt) (hp : PtValid H W p) (d : Dir) : runLen H W on p d = runLen H W on' p d := by
+  unfold runLen
+  rw [takeWhile_congr _ (fun s => on s) (fun s => on' s) (fun s hs => h s (segsFrom_valid H W p hp d s hs))]
+
+theorem numbered_congr (H W : Nat) (on on' : Seg → Bool) (h : ∀ s, s.Valid H W → on s = on' s)
+    (p : Pt) (hp : PtValid H W p) (n : Int) : Numbered H W on p n → Numbered H W on' p n := by
+  unfold Numbered
+  rw [onLoop_congr H W on on' h p hp, C11Masyu.arm_congr H W on on' h p hp .left,
+    C11Masyu.arm_congr H W on on' h p hp .right, C11Masyu.arm_congr H W on on' h p hp .up,
+    C11Masyu.arm_congr H W on on' h p hp .down, runLen_congr H W on on' h p hp .left,
+    runLen_congr H W on on' h p hp .right, runLen_congr H W on on' h p hp .up,
+    runLen_congr H W on on' h p hp .down]
+  exact id
+
+theorem G_congr (hw : WellFormed pb) (on on' : Seg → Bool)
+    (h : ∀ s, s.Valid HH WW → on s = on' s) : G pb on ↔ G pb on' := by
+  obtain ⟨h1, h2, _, _⟩ := hw
+  have hvalid : ∀ y x, y < pb.height → x < pb.width → PtValid HH WW (y, x) := by
+    intro y x hy hx; exact ⟨by simp only []; omega, by simp only []; omega⟩
+  have h' : ∀ s, s.Valid HH WW → on' s = on s := fun s hs => (h s hs).symm
+  unfold G
+  constructor
+  · intro hg y hy x hx hv
+    exact numbered_congr _ _ on on' h _ (hvalid y x hy hx) _ (hg y hy x hx hv)
+  · intro hg y hy x hx hv
+    exact numbered_congr _ _ on' on h' _ (hvalid y x hy hx) _ (hg y hy x hx hv)
+
+theorem extra_wt : ∀ c ∈ extra pb, wtB c = true := by
+  intro c hc
+  unfold extra at hc
+  rw [List.mem_flatten] at hc
+  obtain ⟨l, hl, hcl⟩ := hc
+  obtain ⟨p, _, rfl⟩ := List.mem_map.mp hl
+  unfold cellE at hcl
+  split at hcl
+  · simp only [List.mem_cons, List.not_mem_nil, or_false] at hcl
+    rcases hcl with rfl | rfl | rfl
+    · rfl
+    · exact (good_armE _ _ _ _ _ _).2.1
+    · exact (good_armE _ _ _ _ _ _).2.1
+  · simp at hcl
+
+theorem main (hw : WellFormed pb) (P : PuzzleProg) (hP : program pb = .ok P) :
+    EncodesRules P (Rules pb) ∧ P.KeysOk ∧ (∀ c ∈ P.cs, wtB c = true) := by
+  rw [program_eq pb hw] at hP
+  cases hP
+  refine ⟨?_, keysOk_frame _ _ _ _, ?_⟩
+  · have h := encodes_loop HH WW (extra pb) (G pb) (G_congr pb hw)
+      (fun σ hpass => extra_iff pb hw σ hpass)
+    intro a
+    rw [h a]
+    unfold Rules RulesOn
+    rfl
+  · intro c hc
+    rcases List.mem_append.mp hc with h | h
+    · exact cyc_wt _ _ c h
+    · exact extra_wt pb c h
+
+theorem total (hw : WellFormed pb) : ∃ P, program pb = .ok P := ⟨_, program_eq pb hw⟩
+
+end Main
+
+end Cspuz.Proofs.C11Geradeweg
